@@ -405,6 +405,8 @@ var c14LitOps = []c14LitOp{
 	{"1", c14Exp{"int", "1"}, "int"}, {"-2", c14Exp{"int", "-2"}, "int"}, {"1 + 2*3", c14Exp{"int", "7"}, "int"}, {"(3)", c14Exp{"int", "3"}, "int"},
 	{"- -1", c14Exp{"int", "1"}, "int"}, {"-(-2)", c14Exp{"int", "2"}, "int"}, {"+ +3", c14Exp{"int", "3"}, "int"}, {"- +4", c14Exp{"int", "-4"}, "int"}, {"^ ^5", c14Exp{"int", "5"}, "int"},
 	{"1 << 4", c14Exp{"int", "16"}, "int"}, {"'x'", c14Exp{"int", "120"}, "int"}, {"10 % 4", c14Exp{"int", "2"}, "int"}, {"^0", c14Exp{"int", "-1"}, "int"},
+	{"7 / 2", c14Exp{"int", "3"}, "int"}, {"-9 / 4", c14Exp{"int", "-2"}, "int"}, {"1 / 2", c14Exp{"int", "0"}, "int"}, {"'a' / 2", c14Exp{"int", "48"}, "int"}, {"-7 % 3", c14Exp{"int", "-1"}, "int"},
+	{"7.0 / 2", c14Exp{"float", "3.5"}, "float"}, {"1 / 2.0", c14Exp{"float", "0.5"}, "float"}, {"2 >= 2", c14Exp{"bool", "true"}, "bool"}, {"!(1 < 2) || true", c14Exp{"bool", "true"}, "bool"},
 	{"2.5 * 2", c14Exp{"float", "5.0"}, "float"}, {"1.0 / 4", c14Exp{"float", "0.25"}, "float"}, {"-(0.5)", c14Exp{"float", "-0.5"}, "float"},
 	{`"a" + "b"`, c14Exp{"string", "ab"}, "string"}, {`""`, c14Exp{"string", ""}, "string"}, {"`raw`", c14Exp{"string", "raw"}, "string"},
 	{"true", c14Exp{"bool", "true"}, "bool"}, {"false", c14Exp{"bool", "false"}, "bool"}, {"!true", c14Exp{"bool", "false"}, "bool"},
@@ -415,6 +417,70 @@ var c14LitOps = []c14LitOp{
 	{"0b101", c14Exp{"int", "5"}, "int"}, {"1_000", c14Exp{"int", "1000"}, "int"}, {"07", c14Exp{"int", "7"}, "int"}, {"'\\n'", c14Exp{"int", "10"}, "int"},
 	{"-010", c14Exp{"int", "-8"}, "int"}, {"1e3", c14Exp{"float", "1000.0"}, "float"}, {"0x1p4", c14Exp{"float", "16.0"}, "float"},
 	{`"a\tb"`, c14Exp{"string", "a\tb"}, "string"}, {`"\u00e9"`, c14Exp{"string", "é"}, "string"},
+}
+
+// randIntExpr builds an integer constant expression over small literals with every binary and unary integer operator and
+// evaluates it with plain int64 arithmetic (Go's constant semantics for these sizes: truncated division, sign of the dividend for %).
+func (g *c14Gen) randIntExpr(depth int) (string, int64) {
+	if depth == 0 || rapid.IntRange(0, 3).Draw(g.t, "ileaf") == 0 {
+		v := int64(rapid.IntRange(0, 40).Draw(g.t, "ival"))
+		switch rapid.IntRange(0, 5).Draw(g.t, "ispell") {
+		case 0:
+			return fmt.Sprintf("0x%X", v), v
+		case 1:
+			if v >= 32 && v < 127 && v != '\'' && v != '\\' {
+				return "'" + string(rune(v)) + "'", v
+			}
+		}
+		return fmt.Sprint(v), v
+	}
+	switch rapid.IntRange(0, 7).Draw(g.t, "iunary") {
+	case 0:
+		x, v := g.randIntExpr(depth - 1)
+		return "-(" + x + ")", -v
+	case 1:
+		x, v := g.randIntExpr(depth - 1)
+		return "(" + x + ")", v
+	case 2:
+		x, v := g.randIntExpr(depth - 1)
+		return "^(" + x + ")", ^v
+	}
+	l, lv := g.randIntExpr(depth - 1)
+	r, rv := g.randIntExpr(depth - 1)
+	l, r = "("+l+")", "("+r+")"
+	op := rapid.SampledFrom([]string{"+", "-", "*", "/", "/", "/", "%", "%", "&", "|", "^", "&^", "<<", ">>"}).Draw(g.t, "iop")
+	switch op {
+	case "+":
+		return l + " + " + r, lv + rv
+	case "-":
+		return l + " - " + r, lv - rv
+	case "*":
+		return l + " * " + r, lv * rv
+	case "/":
+		if rv == 0 {
+			return l + " / 3", lv / 3
+		}
+		return l + " / " + r, lv / rv
+	case "%":
+		if rv == 0 {
+			return l + " % 7", lv % 7
+		}
+		return l + " % " + r, lv % rv
+	case "&":
+		return l + " & " + r, lv & rv
+	case "|":
+		return l + " | " + r, lv | rv
+	case "^":
+		return l + " ^ " + r, lv ^ rv
+	case "&^":
+		return l + " &^ " + r, lv &^ rv
+	case "<<":
+		k := rapid.IntRange(0, 3).Draw(g.t, "ishift")
+		return fmt.Sprintf("%s << %d", l, k), lv << k
+	default:
+		k := rapid.IntRange(0, 3).Draw(g.t, "ishift")
+		return fmt.Sprintf("%s >> %d", l, k), lv >> k
+	}
 }
 
 func (g *c14Gen) litFunc(name string) c14Func {
@@ -453,6 +519,12 @@ func (g *c14Gen) litFunc(name string) c14Func {
 				}
 			}
 			op := cands[rapid.IntRange(0, len(cands)-1).Draw(g.t, "op")]
+			if (ty == "int" || ty == "any") && rapid.IntRange(0, 2).Draw(g.t, "randint") == 0 {
+				// a generated operator tree instead of a table row
+				g.feats["literal-only-operator-tree"] = true
+				text, v := g.randIntExpr(3)
+				op = c14LitOp{text, c14Exp{"int", fmt.Sprint(v)}, "int"}
+			}
 			ops = append(ops, op.text)
 			lit[i] = append(lit[i], op.exp)
 		}
